@@ -778,6 +778,43 @@ func runC12(r *Report) {
 		r.Fail("R-C12-7", 0, fmt.Sprintf("only %d Write methods found in the client relay packages (4 confirmed by hand)", nW), "client", "floor")
 	}
 
+	// ---- R-C12-2 a half-close never performs a full close --------------------------------
+	// every implementation of CloseWrite() error in the module: it may signal end-of-data (CloseWrite of
+	// the wrapped end, an EOF frame) but must not call Close on anything - the reverse direction is
+	// still flowing through the same connection
+	nHalf = 0
+	for _, f := range r.P.Funcs {
+		if f.Name() != "CloseWrite" || f.Signature.Recv() == nil || f.Signature.Params().Len() != 0 || f.Signature.Results().Len() != 1 || len(f.Blocks) == 0 {
+			continue
+		}
+		if f.Pkg == nil || len(f.Pkg.Pkg.Path()) < len(Module) || f.Pkg.Pkg.Path()[:len(Module)] != Module {
+			continue
+		}
+		nHalf++
+		bad := token.NoPos
+		for _, u := range WithAnon(f) {
+			Instrs(u, func(in ssa.Instruction) {
+				ci, ok := in.(ssa.CallInstruction)
+				if !ok {
+					return
+				}
+				name := ""
+				if ci.Common().IsInvoke() {
+					name = ci.Common().Method.Name()
+				} else {
+					name = CalleeOf(ci).Name
+				}
+				if name == "Close" {
+					bad = in.Pos()
+				}
+			})
+		}
+		r.Ob("R-C12-2", map[bool]token.Pos{true: f.Pos(), false: bad}[bad == token.NoPos], bad == token.NoPos, "a half-close (CloseWrite) signals end-of-data on the write side only and never calls Close: the reply still has to come back through the same connection", r.P.FuncName(f), "half-close-not-full-close")
+	}
+	if nHalf < 1 {
+		r.Fail("R-C12-2", 0, "no CloseWrite implementation found in the module (2 confirmed by hand)", "module", "half-close-not-full-close:floor")
+	}
+
 	// ---- R-C12-6 sibling record decoders stay aligned ---------------------------
 	for _, c := range []codec{{"internal/client", "udpTunnelConn.ReceivePacket", false, true}, {"internal/client", "TunnoxClient.handleLocalDNSProxy", false, true}} {
 		f := r.P.Fn(c.pkg, c.fn)
